@@ -19,13 +19,13 @@ static std::vector<long long> csr_ll(Matrix* M) {
     return f;
 }
 // symmetric pattern and values (undirected weighted graph), stored diagonal, some isolated vertices
-static vh::Trip gen_sym(vh::Rng& g, int n)
+static vh::Trip gen_sym(vh::Rng& g, int n, bool twoscale = false)
 {
     vh::Trip t; t.n_rows = t.n_cols = n; std::vector<double> rs(n, 0.0);
     auto has = [&](int i, int j) { for (size_t p = 0; p < t.r.size(); p++) if (t.r[p] == i && t.c[p] == j) return true; return false; };
-    int m = g.range(n / 2, 2 * n + 1);
+    int m = twoscale ? g.range(n, 3 * n + 1) : g.range(n / 2, 2 * n + 1);
     for (int k = 0; k < m && n > 1; k++) { int i = g.below(n), j = g.below(n); if (i == j || has(i, j)) continue; if (i % 9 == 8 || j % 9 == 8) continue;
-        double w = 0.125 * g.range(1, 32);
+        double w = 0.125 * g.range(1, 32); if (twoscale) w = (w < 1.0) ? 0.125 : 4.0;      // weak and strong edges side by side
         t.r.push_back(i); t.c.push_back(j); t.v.push_back(-w); t.r.push_back(j); t.c.push_back(i); t.v.push_back(-w); rs[i] += w; rs[j] += w; }
     for (int i = 0; i < n; i++) { t.r.push_back(i); t.c.push_back(i); t.v.push_back(rs[i] + 0.5); }
     return t;
@@ -43,13 +43,17 @@ int main(int argc, char** argv)
     vh::Rng g(E.seed * 198491317 + (c16 ? 16 : 15));
     int np = E.np, rank = E.rank;
     int ncases = seq ? (E.thorough ? 400 : 100) : (E.thorough ? 120 : 36);
-    for (int it = 0; it < ncases; it++)
+    // after the regular cases (their numbers stay): two-scale weights with threshold 1/4, so that A has weak cross-rank
+    // edges and ghost columns which the strength matrix does not have
+    int nextra = c16 ? 0 : ncases / 2;
+    for (int it0 = 0; it0 < ncases + nextra; it0++)
     {
+        bool twoscale = it0 >= ncases; int it = twoscale ? (it0 - ncases) * 2 : it0;
         int cap = 2 + std::min(28, it / 2);
         int n = std::max(seq ? 1 : np, g.range(1, cap + (seq ? 0 : np)));
-        vh::Trip t = gen_sym(g, n);
+        vh::Trip t = gen_sym(g, n, twoscale);
         std::vector<double> keys = gen_keys(g, n);
-        double theta = g.coin() ? 0.0 : 0.25;
+        double theta = g.coin() ? 0.0 : 0.25; if (twoscale) theta = 0.25;
         char ctx[96]; snprintf(ctx, 96, "%s/%s/n%d", prop, seq ? "seq" : "par", n); E.about(ctx);
         // C16 inputs: an arbitrary aggregation (roots = lowest member), candidate with non-zero restriction, omega, k
         std::vector<int> aggRoot(n, -1); std::vector<double> B(n);
@@ -94,7 +98,15 @@ int main(int argc, char** argv)
             auto rows = flat(G({ (long long)lr }));
             CSRMatrix* Ag = nullptr; if (rank == 0) { Ag = vh::make_csr(t); Ag->sort(); Ag->move_diag(); }
             if (!c16) {
-                ParCSRMatrix* S = A->strength(Symmetric, theta, tap);
+                ParCSRMatrix* S;
+                if (twoscale && it0 % 2 == 1) {
+                    // a strength matrix assembled by the caller from the strong edges alone (weight 4 and the diagonal): its ghost
+                    // columns are a subset of A's, so ghost indices of A and S differ
+                    vh::Trip ts; ts.n_rows = ts.n_cols = n;
+                    for (size_t k = 0; k < t.r.size(); k++) if (t.r[k] == t.c[k] || t.v[k] <= -4.0) { ts.r.push_back(t.r[k]); ts.c.push_back(t.c[k]); ts.v.push_back(t.v[k]); }
+                    ParCOOMatrix* Sc = vh::assemble_coo(ts, L, rank); S = Sc->to_ParCSR(); S->on_proc->sort(); S->on_proc->move_diag(); S->off_proc->sort();
+                    if (tap) S->init_tap_communicators(MPI_COMM_WORLD);
+                } else S = A->strength(Symmetric, theta, tap);
                 std::vector<int> states, off_states, aggs;
                 mis2(S, states, off_states, tap, kl.data());
                 int n_aggs = aggregate(A, S, states, off_states, aggs, tap, kl.data());
